@@ -1,0 +1,18 @@
+//go:build verif
+
+package extpool
+
+import (
+	"slices"
+
+	"github.com/nspcc-dev/neo-go/pkg/util"
+)
+
+// verifOrder puts hashes collected from a Go map into a fixed order: under the
+// verif build tag inventories are split into small chunks
+// (payload.MaxHashesCount), and which hash lands in which chunk must not
+// depend on map iteration order for a simulated run to be repeatable.
+func verifOrder(hs []util.Uint256) []util.Uint256 {
+	slices.SortFunc(hs, util.Uint256.Compare)
+	return hs
+}
